@@ -20,7 +20,7 @@ from collections import Counter
 
 VERIF_ROOT = os.path.dirname(os.path.dirname(os.path.abspath(__file__)))
 
-from tv.core import (Outcome, canon, case_hash, case_size, derive_seed,
+from tv.core import (Outcome, jdumps, canon, case_hash, case_size, derive_seed,
                      repo_root)
 from tv.shrink import shrink
 from tv import state
@@ -298,6 +298,9 @@ def capture_env():
 
 
 def main(argv=None):
+    for stream in (sys.stdout, sys.stderr):
+        if hasattr(stream, 'reconfigure'):
+            stream.reconfigure(errors='backslashreplace')
     ap = argparse.ArgumentParser()
     ap.add_argument('prop')
     ap.add_argument('tier', choices=['quick', 'thorough'])
@@ -341,7 +344,7 @@ def replay(mod, ctx, path, prop_id):
         print('HARNESS-ERROR while replaying %s' % path)
         print(err)
         return 2
-    print(json.dumps(out.to_json(), indent=1, ensure_ascii=False)[:6000])
+    print(jdumps(out.to_json(), indent=1)[:6000])
     if out.violations:
         print('VIOLATION property=%s replay=%s' % (prop_id, path))
         return 1
@@ -444,7 +447,7 @@ def campaign(mod, prop_id, tier, seed_value, jobs, scratch, known, fixed,
                'occurrences': stats.buckets[key]['count'],
                'seed': seed_value, 'tier': tier, 'case': small}
         with open(path, 'w') as f:
-            json.dump(rec, f, indent=1, ensure_ascii=False)
+            f.write(jdumps(rec, indent=1))
             f.write('\n')
         rel = os.path.relpath(path, VERIF_ROOT)
         lines.append('VIOLATION property=%s replay=%s' % (prop_id, rel))
@@ -524,7 +527,7 @@ def write_evidence(mod, prop_id, tier, seed_value, stats, known, known_lines,
     os.makedirs(edir, exist_ok=True)
     tmp = os.path.join(edir, '.%s.json.tmp' % prop_id)
     with open(tmp, 'w') as f:
-        json.dump(ev, f, indent=1, ensure_ascii=False, default=repr)
+        f.write(jdumps(ev, indent=1, default=repr))
         f.write('\n')
     os.replace(tmp, os.path.join(edir, '%s.json' % prop_id))
 
